@@ -169,6 +169,21 @@ def build_universe(seed, tier):
         prs = [(ids[0], ids[1]), (ids[0], ids[2]), (ids[2], ids[3]), (ids[2], ids[4]), (ids[4], ids[5]), (ids[0], ids[6])]
         for (a, b), k in zip(prs, kinds):
             u.mutant_pairs.append((a, b, k))
+    # generic arguments: phantom data of different types; all instances of one generic definition, pairwise
+    from universe import Phantom, Str
+    ph = [add(Phantom(Prim('u8'))), add(Phantom(Prim('i8'))), add(Phantom(Str())), add(Seq('vec', Phantom(Prim('u8')))), add(Seq('vec', Phantom(Str())))]
+    for (a, b) in ((ph[0], ph[1]), (ph[0], ph[2]), (ph[3], ph[4])):
+        u.mutant_pairs.append((a, b, 'phantom-argument-changed'))
+    have = set((a, b) for (a, b, _) in u.mutant_pairs)
+    by_def = {}
+    for i, t in enumerate(u.types):
+        if isinstance(t, Adt) and (t.d.tparams or t.d.cparams):
+            by_def.setdefault(t.d.path(), []).append(i)
+    for path, ids in by_def.items():
+        for x in range(len(ids)):
+            for y in range(x + 1, len(ids)):
+                if (ids[x], ids[y]) not in have and (ids[y], ids[x]) not in have:
+                    u.mutant_pairs.append((ids[x], ids[y], 'generic-argument-changed'))
     return u
 
 
